@@ -26,10 +26,16 @@ MinSum(sig) == LET ws == WindowSums(sig) IN
 \* sample >= 3.162 * floor  (10 dB above the noise floor):  s * 200 * 1000 >= 3162 * sum
 Loud(s, msum) == s * 200000 >= 3162 * msum
 
+\* the four preamble pulses must be of comparable height (the weakest at least half the strongest): a real pulse next to
+\* noise that merely reaches the template's absolute tolerance is not a preamble
 IsPreamble(sig, i) ==
   /\ i + 15 <= Len(sig)
   /\ \A k \in 1..16 : IF k \in PreamblePos THEN sig[i + k - 1] >= 200 /\ sig[i + k - 1] <= 1800
                       ELSE sig[i + k - 1] <= 800
+  /\ LET ones == {sig[i + k - 1] : k \in PreamblePos}
+         mx == CHOOSE x \in ones : \A y \in ones : y <= x
+         mn == CHOOSE x \in ones : \A y \in ones : y >= x
+     IN  2 * mn >= mx
 
 \* admission of a demodulated bit string
 CheckMsg(bits) ==
